@@ -130,7 +130,7 @@ def ti_variant_validity(model, vid, parent):
     if not ini_text_ok(v.get("name")) or not ini_name_ok(u) or not ini_text_ok(i) or "," in u:
         return UNSPEC, "variant.text:not-ini"
     for k, val in v["paths"].items():
-        if val is not None and not ini_text_ok(val):
+        if val is not None and val != "" and not ini_text_ok(val):      # ("" - the tree root itself - is written as 'packages =')
             return UNSPEC, "variant.paths:not-ini"
     return VALID, ""
 
@@ -972,6 +972,56 @@ class TIMachine(FormatMachine):
         d["clean"] = False
         d["bare"] = {"expected": new_expected, "must_reject": must_reject, "kinds": kinds}
         return "bare:%d:%s" % (changed, "reject" if must_reject else "accept")
+
+    LEGACY_PRIME = ("[general]\nfamily = Fedora\nversion = 20\narch = x86_64\ntimestamp = 1386857206\nvariant = Server\n"
+                    "packagedir = Packages\nrepository = .\n\n[checksums]\nimages/boot.iso = sha256:" + "ab" * 32 + "\n"
+                    "/mnt/build/os/images/pxeboot/vmlinuz = sha256:" + "cd" * 32 + "\n")
+
+    def op_ti_abs_key_stored(self, op):
+        """C16: "absolute paths are refused ... no path ever carries a checksum that was written for another" - also for an
+        absolute KEY sitting in a stored current-format file, and whatever the reading object did before: nothing, a
+        current-format tree, or a header-less pre-productmd file (whose absolute keys are legitimately cut down)."""
+        path = self.path(op)
+        d = self.durable.get(path)
+        if d is None or not d["clean"] or d["expected"] is None or d.get("legacy") or self.fs.get(path) is None:
+            return "noop"
+        paths = sorted(d["expected"]["checksums"])
+        text = self.fs.get(path).decode("utf-8")
+        if not paths or "[checksums]\n" not in text:
+            return "noop"
+        victim = paths[op.get("n", 0) % len(paths)]
+        prefix = ["/mnt/build/os/", "/", "/compose/Server/x86_64/os/"][op.get("n", 0) % 3]
+        text2 = text.replace("[checksums]\n", "[checksums]\n%s%s = sha256:%s\n" % (prefix, victim, "0f" * 32), 1)
+        scratch = "/sim/d/.c16-abs-" + self.FILE
+        self.fs.put(scratch, text2)
+        CTX.fault("F3.structured_damage")
+        for prime in ("none", "current", "headerless"):
+            obj = self.new_obj()
+            try:
+                if prime == "current":
+                    self.fs.put(scratch + ".prime", self.prime_document())
+                    obj.load(scratch + ".prime")
+                elif prime == "headerless":
+                    self.fs.put(scratch + ".prime", self.LEGACY_PRIME)
+                    obj.load(scratch + ".prime")
+            except Exception as e:
+                if isinstance(e, HarnessError):
+                    raise
+                continue            # the priming document itself is not this op's subject
+            try:
+                obj.load(scratch)
+                raised = None
+            except Exception as e:
+                if isinstance(e, HarnessError):
+                    raise
+                raised = e
+            self.count("C16", ["abs-key-stored", prime, raised is not None])
+            CTX.probe("c16.absolute_key_in_stored_file.%s" % prime)
+            if raised is None:
+                got = observe_ti(obj)["checksums"].get(victim)
+                raise Violation("C16", "C16.absolute_path_refused", "absolute-checksum-key-loaded/after-%s" % prime,
+                                {"victim": victim, "victim_now": got and [got[0], got[1][:16]]})
+        return "abs-key-refused"
 
     def _restart_bare(self, s, op, path, d):
         via = op.get("via", "path")
